@@ -347,9 +347,7 @@ impl<D: DataMut> ReaderFrom for VecZnx<D> {
 
         // Validate metadata consistency: n * cols * size * sizeof(i64) must match data length.
         // Checked: the header is untrusted and the product may not fit a usize.
-        let limb_len: Option<usize> = new_n
-            .checked_mul(new_cols)
-            .and_then(|x| x.checked_mul(size_of::<i64>()));
+        let limb_len: Option<usize> = new_n.checked_mul(new_cols).and_then(|x| x.checked_mul(size_of::<i64>()));
         let expected_len: Option<usize> = limb_len.and_then(|x| x.checked_mul(new_size));
         if expected_len != Some(len) {
             return Err(std::io::Error::new(
